@@ -22,14 +22,14 @@ import (
 // and relativises the target's URI against the referrer's base, so the
 // expected target is known by construction.
 type Universe struct {
-	HasDefaults bool
+	HasDefaults  bool
 	BadDefaultAt *Node
-	Reloc   bool // see UniOpts.Relocatable
-	Draft7  bool
-	BaseURI string // BaseURI option for resolving Docs[0]; may be ""
-	Docs    []*Doc
-	Nodes   []*Node
-	Dangle  *Edge // the one planted dangling reference, if any
+	Reloc        bool // see UniOpts.Relocatable
+	Draft7       bool
+	BaseURI      string // BaseURI option for resolving Docs[0]; may be ""
+	Docs         []*Doc
+	Nodes        []*Node
+	Dangle       *Edge // the one planted dangling reference, if any
 }
 
 // Doc is one document of the store.
@@ -65,7 +65,11 @@ type Node struct {
 	// refer to leaves IN PLACE (allOf:[{$ref}]), so a leaf applies at the hop's own
 	// instance location: the probe {"f<ID>":1} there is invalid iff the reference
 	// reaches this leaf.
-	Leaf    bool
+	Leaf bool
+	// An alias is a subschema that consists of one "$ref" and nothing else (it also carries the
+	// Leaf flag, so that nothing else is hung on it). Its InPlace edge leads to a leaf or to an
+	// alias created before it; a reference to an alias designates what the chain ends in.
+	Alias   bool
 	InPlace *Edge
 	// Default, if set, is rendered as the hop's "default": an instance that follows one of the
 	// hop's own references and carries the right marker (or, for the one planted bad default, a
@@ -294,6 +298,9 @@ func GenUniverse(c *Ctx, o UniOpts) *Universe {
 		if u.Draft7 && n.IsRes {
 			continue // draft-07: "$id" is either a base or a plain-name fragment, not both
 		}
+		if n.Alias {
+			continue // nothing but "$ref"
+		}
 		a := pick(c, anchorPool)
 		dup := false
 		for _, o := range u.Nodes {
@@ -310,6 +317,31 @@ func GenUniverse(c *Ctx, o UniOpts) *Universe {
 	for _, n := range u.Nodes {
 		if n.Leaf {
 			leaves = append(leaves, n)
+		}
+	}
+	// Aliases: {"$ref": ...} subschemas under a document root's $defs, each leading to a leaf or
+	// to an earlier alias, possibly in another document (reference-to-reference chains).
+	if len(leaves) > 0 {
+		for j := c.W(3); j > 0; j-- {
+			d := u.Docs[c.W(len(u.Docs))]
+			if d.Root.Leaf {
+				continue
+			}
+			a := &Node{Doc: d, Parent: d.Root, Depth: 1, Leaf: true, Alias: true}
+			a.Key = fmt.Sprintf("alias%d", j)
+			a.Res = d.Root.Res
+			a.Base = d.Root.Res.Base
+			for try := 0; try < 4 && a.InPlace == nil; try++ {
+				if e := u.makeEdge(c, a, 2, leaves[c.W(len(leaves))]); e != nil {
+					a.InPlace = e
+				}
+			}
+			if a.InPlace == nil {
+				continue
+			}
+			d.Root.Kids = append(d.Root.Kids, a)
+			u.addNode(d, a)
+			leaves = append(leaves, a)
 		}
 	}
 	for _, n := range u.Nodes {
@@ -670,6 +702,9 @@ func (u *Universe) plantDangling(c *Ctx) {
 }
 
 func (u *Universe) renderNode(n *Node) map[string]any {
+	if n.Alias {
+		return map[string]any{"$ref": n.InPlace.Text}
+	}
 	o := map[string]any{}
 	if n.IDText != "" {
 		o["$id"] = n.IDText
@@ -823,6 +858,28 @@ func (u *Universe) LoaderFor(c *Ctx, plan *FaultPlan, log *LoaderLog) jsonschema
 		if err := json.Unmarshal([]byte(u.Docs[di].Text), &sch); err != nil {
 			return nil, err
 		}
+		if plan != nil {
+			switch plan.Special[call] {
+			case "cyclic":
+				// the right document, but as a Go value that is not a tree: a subschema points back at the document root
+				log.Fired = append(log.Fired, "cyclic-graph")
+				if sch.Defs == nil {
+					sch.Defs = map[string]*jsonschema.Schema{}
+				}
+				sch.Defs["zz-back-to-root"] = &jsonschema.Schema{Not: &sch}
+			case "dag":
+				// ... or a heavily shared one: 40 levels, both children of every level the same pointer
+				log.Fired = append(log.Fired, "shared-dag")
+				n := &jsonschema.Schema{Title: "leaf"}
+				for i := 0; i < 40; i++ {
+					n = &jsonschema.Schema{AllOf: []*jsonschema.Schema{n, n}}
+				}
+				if sch.Defs == nil {
+					sch.Defs = map[string]*jsonschema.Schema{}
+				}
+				sch.Defs["zz-dag"] = n
+			}
+		}
 		shared[di] = &sch
 		return &sch, nil
 	}
@@ -911,14 +968,18 @@ func (u *Universe) InPlaceProbes(probes []Probe) []InPlaceProbe {
 			continue
 		}
 		seen[h] = true
+		applied := h.InPlace.To
+		for applied.Alias {
+			applied = applied.InPlace.To
+		}
 		other := "f99999"
 		for _, n := range u.Nodes {
-			if n.Leaf && n != h.InPlace.To {
+			if n.Leaf && !n.Alias && n != applied {
 				other = n.leafKey()
 				break
 			}
 		}
-		out = append(out, InPlaceProbe{Path: p.Path, Holder: h, Applied: h.InPlace.To, Other: other})
+		out = append(out, InPlaceProbe{Path: p.Path, Holder: h, Applied: applied, Other: other})
 	}
 	return out
 }
